@@ -69,7 +69,7 @@ func decTrunc(amt sdkmath.Int, ratio osmomath.Dec) sdkmath.Int {
 }
 
 func runC18(c *vk.Ctx) {
-	c.R.Rule = "cases = parameter sets (four proportions summing to one incl. zeros, reduction factor 0..1, reduction period 1..20, start epoch 0..5, 0..8 weighted developer receivers incl. empty-address entries and weights like 1/3 that truncate, initial provision 0..1e13 incl. fractional) run for 5..60 consecutive real mint epochs. For every mint-epoch block the bank events of the block (coinbase, burn, transfer) and the supply queries are compared with the schedule computed exactly: minted = floor(provision); transfers from the mint account to the fee collector / pool-incentives account = floor(M·p); developer share burned from the mint account and floor(floor(M·p_dev)·w_i) released from the vesting account to each receiver (community pool for empty addresses); community pool gets exactly the rest; mint account empty afterwards; SupplyWithOffset grows by exactly M; provision multiplied by the reduction factor exactly at lastReduction + period; nothing minted before the start epoch. distinct_nontrivial counts distinct (#receivers, any empty-address receiver?, dev share truncates?, reduction in this epoch?, before start?, zero proportions mask, minted zero?) tuples per epoch."
+	c.R.Rule = "cases = parameter sets (four proportions summing to one incl. zeros, reduction factor 0..1, reduction period 1..20, start epoch 0..5, 0..8 weighted developer receivers incl. empty-address entries and weights like 1/3 that truncate, initial provision 0..1e13 incl. fractional) run for 5..60 consecutive real mint epochs, with governance changing the reduction period / factor / proportions now and then (through the keeper or straight into the parameter subspace, as a parameter-change proposal does). For every mint-epoch block the bank events of the block (coinbase, burn, transfer) and the supply queries are compared with the schedule computed exactly: minted = floor(provision); transfers from the mint account to the fee collector / pool-incentives account = floor(M·p); developer share burned from the mint account and floor(floor(M·p_dev)·w_i) released from the vesting account to each receiver (community pool for empty addresses); community pool gets exactly the rest; mint account empty afterwards; SupplyWithOffset grows by exactly M; provision multiplied by the reduction factor exactly at lastReduction + period; nothing minted before the start epoch. distinct_nontrivial counts distinct (#receivers, any empty-address receiver?, dev share truncates?, reduction in this epoch?, before start?, zero proportions mask, minted zero?) tuples per epoch."
 	nSets := c.N(720, 24000)
 	c.Cases("params", nSets, func(i int, r *vk.Rng) {
 		epochDur := time.Hour
@@ -161,6 +161,30 @@ func runC18(c *vk.Ctx) {
 			nEpochs = 25
 		}
 		for ep := 0; ep < nEpochs; ep++ {
+			if ep > 1 && r.Intn(8) == 0 {
+				// governance changes parameters while minting runs: the reduction period (also to less than the number of
+				// epochs since the last reduction), the factor, the proportions. Half of the time through the keeper, half
+				// of the time the way a parameter-change proposal does it: straight into the module's parameter subspace.
+				switch r.Intn(3) {
+				case 0:
+					p.ReductionPeriodInEpochs = 1 + r.I64n(12)
+				case 1:
+					p.ReductionFactor = sdkmath.LegacyNewDecWithPrec(r.I64n(1001), 3)
+				default:
+					pr := p.DistributionProportions
+					p.DistributionProportions = minttypes.DistributionProportions{Staking: pr.PoolIncentives, PoolIncentives: pr.CommunityPool, DeveloperRewards: pr.DeveloperRewards, CommunityPool: pr.Staking}
+				}
+				if err := p.Validate(); err == nil {
+					if r.Bool() {
+						mk.SetParams(ch.Ctx, p)
+						c.Logf("governance (keeper): period %d factor %s proportions %v", p.ReductionPeriodInEpochs, p.ReductionFactor, p.DistributionProportions)
+					} else if ss, ok := ch.App.ParamsKeeper.GetSubspace(minttypes.ModuleName); ok {
+						ss.SetParamSet(ch.Ctx, &p)
+						c.Logf("governance (parameter subspace): period %d factor %s proportions %v", p.ReductionPeriodInEpochs, p.ReductionFactor, p.DistributionProportions)
+					}
+					c.Count("parameter_changes_during_history", 1)
+				}
+			}
 			info := ch.App.EpochsKeeper.GetEpochInfo(ch.Ctx, "day")
 			end := info.CurrentEpochStartTime.Add(info.Duration)
 			dt := end.Sub(ch.Ctx.BlockTime()) + time.Duration(1+r.I64n(int64(20*time.Minute)))
